@@ -44,7 +44,7 @@ vars == <<l, st, last, objs, blocks, gh, viol, stats>>
 DeadObs == [ex |-> FALSE]
 Gh0 == [buf0 |-> 0, appendRun |-> 0, reallocRun |-> 0, relocRun |-> 0, startSize |-> 0, reloc |-> FALSE]
 Stats0 == [ops |-> 0, execs |-> 0, drift |-> 0, faults |-> 0, limitExc |-> 0, alias |-> 0, nullDealloc |-> 0,
-           prims |-> 0, allocEvents |-> 0, stable |-> 0, handover |-> 0, pristineOps |-> 0, skipped |-> 0, driftAt |-> <<>>]
+           prims |-> 0, allocEvents |-> 0, stable |-> 0, handover |-> 0, pristineOps |-> 0, skipped |-> 0, driftAt |-> <<>>, constOps |-> 0]
 
 Put(f, k, v) == [x \in DOMAIN f \cup {k} |-> IF x = k THEN v ELSE f[x]]
 Del(f, k) == [x \in DOMAIN f \ {k} |-> f[x]]
@@ -365,6 +365,15 @@ TOp ==
                      ELSE obs[c].cap = obs[c].size)
                 THEN "shrink_to_fit did not reduce the capacity to size() / to the inline N"
            ELSE ""
+         \* ---- C20 (a): a const operation (observers, comparisons, being the source of a copy) leaves the representation
+         \* of the container it reads - object bytes and element buffer - unchanged, and issues no allocator request
+         \* for it; (the recording carries a hash of those bytes before and after the call)
+         c20Fail ==
+           IF "h0" \notin DOMAIN ev THEN ""
+           ELSE IF (lb.op \in Observers \cup {"ctorCopy"} \/ (lb.op = "assignCopy" /\ lb.c # lb.d)) /\ ~faulted /\ ev.h0 # ev.h1
+                THEN "a const operation changed the representation of the container it reads"
+           ELSE IF lb.op \in Observers /\ Len(ev.allocs) > 0 THEN "a const operation used the allocator"
+           ELSE ""
          \* ---- design drift (diagnostic only)
          drift == ~faulted /\ \E x \in exs : ~IsRef(x) /\ exp.st[x].ex /\ (obs[x].cap # exp.st[x].cap \/ obs[x].inl # exp.st[x].inl)
          \* ---- next state
@@ -389,8 +398,9 @@ TOp ==
          v4 == IF c05Fail # "" THEN AddViol(v3, {"C05"}, l, c05Fail) ELSE v3
          v5 == IF c07Fail # "" THEN AddViol(v4, {"C07"}, l, c07Fail) ELSE v4
          v6 == IF c18Fail # "" THEN AddViol(v5, {"C18"}, l, c18Fail) ELSE v5
+         v7 == IF c20Fail # "" THEN AddViol(v6, {"C20"}, l, c20Fail) ELSE v6
      IN
-     /\ viol' = v6
+     /\ viol' = v7
      /\ st' = st2
      /\ last' = [x \in Slots |-> IF obs[x].ex THEN obs[x] ELSE DeadObs]
      /\ objs' = objs2
@@ -407,7 +417,8 @@ TOp ==
                                !.allocEvents = @ + Len(ev.allocs),
                                !.stable = @ + (IF ~exempt /\ ~faulted /\ fits /\ st[c].ex /\ c \in exs /\ pfx > 0 THEN 1 ELSE 0),
                                !.handover = @ + (IF moveFromHeap \/ swapHeaps THEN 1 ELSE 0),
-                               !.pristineOps = @ + (IF allPristine THEN 1 ELSE 0)]
+                               !.pristineOps = @ + (IF allPristine THEN 1 ELSE 0),
+                               !.constOps = @ + (IF "h0" \in DOMAIN ev /\ (lb.op \in Observers \cup {"ctorCopy", "assignCopy"}) THEN 1 ELSE 0)]
      /\ l' = l + 1
 
 \* end of an execution: every container has been destroyed (explicit destroy events precede the marker)
